@@ -3,10 +3,12 @@ from __future__ import annotations
 
 import ast
 import itertools
+import re
 from typing import Dict, List, Optional, Tuple, Union
 
 from ..core import AnalysisError, FunctionInfo, Project, dotted, is_const, kwarg, norm, param_names, walk_no_nested
 from ..util import count_negations, returns_of, strip_casts
+from .. import sym
 from . import c03
 
 CONTRASTS = "formulaic.transforms.contrasts"
@@ -274,6 +276,19 @@ class ShapeEval:
                 return n.body if t else n.orelse
         return ast.fix_missing_locations(R().visit(copy.deepcopy(node)))
 
+    def _trace_text(self, st: ast.stmt, stored: Optional[str]) -> str:
+        """Text of a value-affecting statement with the matrices stored into named by order of first store (the spelling of
+        the local that holds the matrix under construction is not part of the trace)."""
+        if not hasattr(self, "_mats"):
+            self._mats = {}
+        if stored is not None and stored not in self._mats:
+            self._mats[stored] = f"_M{len(self._mats)}"
+        node = self.resolved(st)
+        for n in ast.walk(node):
+            if isinstance(n, ast.Name) and n.id in self._mats:
+                n.id = self._mats[n.id]
+        return norm(node)
+
     # ---- statements
     def run(self, stmts: List[ast.stmt]) -> None:
         for st in stmts:
@@ -297,14 +312,17 @@ class ShapeEval:
                     else:
                         self.env[tgt.id] = self.value(st.value)
                 elif isinstance(tgt, ast.Subscript) and isinstance(tgt.value, ast.Name):
-                    self.trace.append(norm(self.resolved(st)))
+                    self.trace.append(self._trace_text(st, tgt.value.id))
                     v = self.env.get(tgt.value.id)
                     if isinstance(v, tuple) and v[0] == "mask0" and isinstance(st.value, ast.Constant) and st.value.value is False:
                         self.env[tgt.value.id] = ("mask", v[1] - Lin(0, 1))
                     # item assignment preserves the shape of the container
                 continue
             if isinstance(st, ast.AugAssign):
-                self.trace.append(norm(self.resolved(st)))
+                b_ = st.target
+                while isinstance(b_, (ast.Subscript, ast.Attribute)):
+                    b_ = b_.value
+                self.trace.append(self._trace_text(st, b_.id if isinstance(b_, ast.Name) else None))
                 continue  # shape preserving
             if isinstance(st, ast.If):
                 t = self.test(st.test)
@@ -560,20 +578,54 @@ def r5(ctx):
         ctx.check(not missing, "C11.R5", f"registry entry `{key}` implements every abstract method", P.cls(cq).where, ctx.construct(cq, text="abstract methods"),
                   f"not implemented: {missing}")
     cm = B.methods["_get_coefficient_matrix"]
-    t = norm(cm.node)
-    ok = "if reduced_rank:" in t and "hstack([numpy.ones((len(levels), 1)), coding_matrix])" in t and "numpy.linalg.inv(coding_matrix)" in t
+    try:
+        co = sym.outcomes(cm.node)
+    except sym.Unmodelled as e:
+        raise AnalysisError(f"C11.R5: _get_coefficient_matrix cannot be summarised: {e}")
+    CMX = "self.get_coding_matrix(levels, reduced_rank=reduced_rank, sparse=sparse)"
+    want = {(True, False): [f"numpy.linalg.inv(numpy.hstack([numpy.ones((len(levels), 1)), {CMX}]))", f"numpy.linalg.inv(numpy.hstack((numpy.ones((len(levels), 1)), {CMX})))"],
+            (True, True): [f"scipy.sparse.linalg.inv(spsparse.hstack([numpy.ones((len(levels), 1)), {CMX}]).tocsc())",
+                           f"scipy.sparse.linalg.inv(spsparse.hstack((numpy.ones((len(levels), 1)), {CMX})).tocsc())"],
+            (False, False): [f"numpy.linalg.inv({CMX})"], (False, True): [f"scipy.sparse.linalg.inv({CMX}.tocsc())"]}
+    got = {}
+    ok = True
+    for (red, sp), pats in want.items():
+        res = sym.eval_under(co, {"reduced_rank": red, "sparse": sp}, kinds=("return", "fall"))
+        got[(red, sp)] = [norm(v)[:110] if v is not None else None for _k, v, _e in res]
+        alts = pats + [x.replace("reduced_rank=reduced_rank", f"reduced_rank={red}").replace("sparse=sparse", f"sparse={sp}") for x in pats]
+        ok = ok and len(res) == 1 and res[0][1] is not None and sym.pm_any(alts, res[0][1]) is not None
     ctx.check(ok, "C11.R5", "the coefficient matrix inverts [1 | coding] when reduced and the coding itself when full", cm.where, ctx.construct(cm, text="coefficient matrix"),
-              "_get_coefficient_matrix changed shape")
+              f"_get_coefficient_matrix changed shape: (reduced, sparse) -> {got}")
     ap = B.methods["_apply"]
-    r = returns_of(ap.node)
-    ok = bool(r) and norm(r[0].value) == "(dummies if sparse else dummies.values) @ coding_matrix"
-    ctx.check(ok, "C11.R5", "encoding = indicator matrix times coding matrix", ap.where, ctx.construct(ap, text="apply"), f"_apply returns `{norm(r[0].value) if r else None}`")
+    try:
+        ao = sym.outcomes(ap.node)
+    except sym.Unmodelled as e:
+        raise AnalysisError(f"C11.R5: Contrasts._apply cannot be summarised: {e}")
+    CM2 = "self.get_coding_matrix(levels, reduced_rank=reduced_rank, sparse=sparse)"
+    ok, got = True, {}
+    for sp, lhs in ((True, "dummies"), (False, "dummies.values")):
+        res = sym.eval_under(ao, {"sparse": sp}, kinds=("return", "fall"))
+        got[sp] = [norm(v)[:110] if v is not None else None for _k, v, _e in res]
+        ok = ok and len(res) == 1 and res[0][1] is not None and sym.pm_any([f"{lhs} @ {c_}" for c0 in (CM2, CM2.replace("reduced_rank=reduced_rank", "reduced_rank")) for c_ in (c0, c0.replace("sparse=sparse", "sparse=" + str(sp)))], res[0][1]) is not None
+    ctx.check(ok, "C11.R5", "encoding = indicator matrix times coding matrix", ap.where, ctx.construct(ap, text="apply"), f"_apply returns (by sparse) {got}")
     app = B.methods["apply"]
-    t = norm(app.node)
-    ok = "column_names=tuple(coding_column_names)" in t and "coding_column_names = self.get_coding_column_names(levels, reduced_rank=reduced_rank)" in t \
-        and "encoded = self._apply(dummies, levels=levels, reduced_rank=reduced_rank, sparse=sparse)" in t
+    try:
+        po = [o for o in sym.outcomes(app.node) if o.kind == "return" and o.value is not None]
+    except sym.Unmodelled as e:
+        raise AnalysisError(f"C11.R5: Contrasts.apply cannot be summarised: {e}")
+    main = [o for o in po if isinstance(o.value, ast.Call) and kwarg(o.value, "column_names") is not None and norm(kwarg(o.value, "column_names")) != "()"]
+    ok = bool(main)
+    bad = ""
+    for o in main:
+        cn = kwarg(o.value, "column_names")
+        enc = o.value.args[0] if o.value.args else kwarg(o.value, "values")
+        calls = sym.find("self._apply(dummies, levels=levels, reduced_rank=reduced_rank, sparse=ANY_s)", enc) if enc is not None else []
+        sp_ok = bool(calls) and all(b["ANY_s"] == "output == 'sparse'" or re.fullmatch(r"'(\w+)' == 'sparse'", b["ANY_s"]) for _n, b in calls)
+        if not (sym.pm("tuple(self.get_coding_column_names(levels, reduced_rank=reduced_rank))", cn) is not None and len(calls) == 1 and sp_ok):
+            ok = False
+            bad = f"column_names=`{norm(cn)[:80]}`, encoding `{norm(enc)[:120] if enc is not None else None}`"
     ctx.check(ok, "C11.R5", "names and encoding are produced for the same levels and rank mode", app.where, ctx.construct(app, text="apply names"),
-              "Contrasts.apply must derive names and encoding from the same (levels, reduced_rank)")
+              f"Contrasts.apply must derive names and encoding from the same (levels, reduced_rank): {bad or 'no encoding path found'}")
 
 
 
